@@ -382,6 +382,20 @@ def c18_ground(repo, tier):
             add("%s/pack-name-matches-module" % mod, isinstance(m.get("name"), str) and m["name"].lower() == mod,
                 "name %r" % (m.get("name"),))
             add("%s/pack-type-is-byte" % mod, isinstance(m.get("type"), int) and 0 <= m["type"] <= 255)
+    # writability: every access level a table declares (None, "ALL", and the odd "Gecko" / "RD") survives the real constructors
+    levels = sorted(set(repr(it["rw"]) for m in mods for it in m.get("items", [])))
+    I = _interp(repo)
+    accmod = I.import_module("geckolib.driver.accessor")
+    for lv in levels:
+        rw = ast.literal_eval(lv)
+        kept = []
+        for cname, args in (("GeckoByteStructAccessor", [None, "t", 0, rw]), ("GeckoWordStructAccessor", [None, "t", 0, rw]),
+                            ("GeckoTimeStructAccessor", [None, "t", 0, rw]), ("GeckoBoolStructAccessor", [None, "t", 0, 1, rw]),
+                            ("GeckoEnumStructAccessor", [None, "t", 0, 0, ["A", "B"], None, 2, rw]),
+                            ("GeckoTempStructAccessor", [None, "t", 0, rw])):
+            a = I.call(accmod.ns[cname], list(args), {})
+            kept.append(a.attrs.get("read_write") == rw and type(a.attrs.get("read_write")) is type(rw))
+        add("constructors-keep-the-declared-access-level:%s" % lv, all(kept), "read_write after construction differs from the table's declaration for %s" % lv)
     # config-file naming a spa reports: platform keys round-trip through lower()
     # pinned layout
     if os.path.exists(PINNED):
@@ -705,3 +719,62 @@ def c14_temp_items_ground(repo, tier):
     obs.append({"name": "temperature-items-are-temperature-accessors-in-every-table(%d items, %d keys)" % (n, len(declared)),
                 "status": "proved" if not bad and n > 0 else "refuted", "detail": json.dumps(bad[:5]), "witness": bad[:5], "confirmed": bool(bad)})
     return {"name": "tables", "backend": "ground-eval(ast literal tables)", "obligations": obs, "samples": [{"items": n}]}
+
+
+def c02_shape_kinds(repo):
+    """quick-tier sample of the accessor shapes: one per (class, has bit position, size, has MaxItems, label-count class) --
+    the code paths of the accessor distinguish nothing else; the thorough tier runs every shape"""
+    seen = {}
+    for s in c02_all_nontemp_shapes(repo):
+        n = len(s["items"]) if s.get("items") is not None else -1
+        k = (s["cls"], s["bitpos"] is None, s["size"], s["maxitems"] is None, 0 if n < 0 else 1 if n <= 2 else 2 if n <= 4 else 3 if n <= 8 else 4)
+        seen.setdefault(k, s)
+    return sorted(seen.values(), key=lambda s: s["id"])
+
+
+def _pinned_subset(repo, name, what, keep_item, keep_field):
+    """the pinned-layout comparison of C18 restricted to the table data ONE other property depends on (so that a change of
+    that data is reported under that property too): items selected by keep_item(key), module-level fields by keep_field(name)"""
+    obs = []
+    if not os.path.exists(PINNED):
+        return {"name": name, "backend": "ground-eval(pinned layout)", "obligations": [
+            {"name": "pinned/layout-file-present", "status": "unknown", "detail": "tables/pinned_layout.json missing"}]}
+    pinned = json.load(open(PINNED))
+    cur = layout_record(repo)
+    diffs = []
+    n = 0
+    for mod, rec in sorted(pinned["modules"].items()):
+        c = cur.get(mod)
+        if c is None:
+            diffs.append("%s: module removed" % mod)
+            continue
+        for k, v in rec.items():
+            if k != "items" and keep_field(k) and json.loads(json.dumps(c.get(k))) != v:
+                diffs.append("%s: %s: %r -> %r" % (mod, k, v, c.get(k)))
+        for key, irec in rec["items"].items():
+            if not keep_item(key):
+                continue
+            n += 1
+            ci = c["items"].get(key)
+            if ci is None:
+                diffs.append("%s: item %s removed" % (mod, key))
+            elif json.loads(json.dumps(ci)) != irec:
+                diffs.append("%s: item %s: %r -> %r" % (mod, key, irec, ci))
+    obs.append({"name": "%s-of-every-published-table-unchanged(%d items)" % (what, n), "status": "proved" if not diffs and n > 0 else "refuted",
+                "detail": "; ".join(diffs[:4]), "witness": diffs[:10], "confirmed": bool(diffs)})
+    return {"name": name, "backend": "ground-eval(ast literal tables + real constructor via pyvc, vs pinned layout)", "obligations": obs,
+            "samples": [{"items_compared": n}]}
+
+
+def c12_wiring_tables_ground(repo, tier):
+    """C12: the output items (their label lists decide what 'wired to a device' means), the device / user-demand key lists"""
+    return _pinned_subset(repo, "wiring-tables", "output-items-and-device-lists",
+                          lambda k: k.startswith("Out") or k.startswith("Ud") or k in ("P1", "P2", "P3", "P4", "P5", "BL", "Waterfall"),
+                          lambda f: f in ("output_keys", "all_device_keys", "user_demand_keys"))
+
+
+def c13_command_tables_ground(repo, tier):
+    """C13: the items device commands write (user demands, economy, temperature unit, set point)"""
+    return _pinned_subset(repo, "command-tables", "command-items",
+                          lambda k: k.startswith("Ud") or k in ("EconActive", "TempUnits", "SetpointG"),
+                          lambda f: False)
